@@ -45,6 +45,12 @@ TYPES = {  # parameter types (cycled), variadic element type, result declaration
     "mixed": (["int", "string", "float64"], "string", ["string", "int", "error"]),
     "rich": (["*V", "[]int", "interface{}"], "interface{}", ["err error", "out *V", "m map[string]int"]),
 }
+MNAMES = {  # abstract methods (A, B) -> method names of the concrete interface
+    "AB": ("A", "B"),
+    "lower": ("flush", "ping"),
+    "initialism": ("id", "url"),
+    "twins": ("close", "Close"),
+}
 OPT_PKGS = [(k, bool(k & 1), bool(k & 2), bool(k & 4)) for k in range(8)]  # (k, skip-ensure, stub-impl, with-resets)
 
 
@@ -63,13 +69,16 @@ def iface_src(cid, cls):
         ps.append((names[i] + " " + t).strip())
     rs = rdecls[:s["nres"]]
     res = "" if not rs else (" " + rs[0] if len(rs) == 1 and " " not in rs[0] else " (" + ", ".join(rs) + ")")
-    return "type %s interface {\n\tA(%s)%s\n\tB(x int) int\n}\n" % (cid, ", ".join(ps), res)
+    ma, mb = MNAMES[cls.get("mnames", "AB")]
+    return "type %s interface {\n\t%s(%s)%s\n\t%s(x int) int\n}\n" % (cid, ma, ", ".join(ps), res, mb)
 
 
 def choose_classes(ctx, classes, per_shape):
     """classes: table exported by TLC.  Returns {shape_key: [class,...]} -- a seed-rotated subset that keeps
     one all-int class per shape (same-typed parameters: a transposition still compiles) and covers every
     name set and type set on some shape with >= 2 parameters."""
+    inpkg = [c for c in classes if c["mnames"] != "AB" and not c["fragile"]]
+    classes = [c for c in classes if c["mnames"] == "AB"]
     by_shape = {}
     for c in classes:
         by_shape.setdefault(shape_key(c["shape"]), []).append(c)
@@ -95,6 +104,20 @@ def choose_classes(ctx, classes, per_shape):
                     c = ctx.rng.choice(cand)
                     if c not in chosen[sk]:
                         chosen[sk].append(c)
+    # in-package mocks of interfaces with unexported / initialism-like / case-twin method names
+    n_in = None if per_shape is None else (8 if per_shape >= 3 else 2)
+    for mn in sorted({c["mnames"] for c in inpkg}):
+        lst = sorted([c for c in inpkg if c["mnames"] == mn], key=lambda c: (shape_key(c["shape"]), c["names"], c["types"]))
+        ctx.rng.shuffle(lst)
+        seen_shapes = set()
+        for c in lst:
+            sk = shape_key(c["shape"])
+            if sk in seen_shapes:
+                continue
+            if n_in is not None and len(seen_shapes) >= n_in:
+                break
+            seen_shapes.add(sk)
+            chosen.setdefault(sk, []).append(c)
     return chosen
 
 
@@ -126,7 +149,7 @@ def build_world(ctx, chosen):
         if code == 0:
             return w, live, skipped, w / "drvbin"
         bad = {}
-        for m in re.finditer(r"^(out/o\d/mocks\.go):(\d+):\d+: (.*)$", err, re.M):
+        for m in re.finditer(r"^(out/o\d/mocks\.go|in/i\d/mocks_gen\.go|in/i\d/shim\.go):(\d+):\d+: (.*)$", err, re.M):
             cid = class_at(w / m.group(1), int(m.group(2)))
             if cid:
                 bad.setdefault(cid, m.group(3))
@@ -147,19 +170,55 @@ def class_at(path, line):
     return None
 
 
+def in_package(c):
+    return c.get("mnames", "AB") != "AB"
+
+
 def generate(ctx, w, live):
     import shutil
     shutil.rmtree(w / "out", ignore_errors=True)
+    shutil.rmtree(w / "in", ignore_errors=True)
     pk = {}
     for pkg, want in (("src", False), ("srcr", True)):
         ifaces = {}
-        for cid in live:
+        for cid, c in live.items():
+            if in_package(c):
+                continue
             ifaces[cid] = {"configs": [
                 {"dir": str(w / "out" / ("o%d" % k)), "filename": "mocks.go", "pkgname": "o%d" % k,
                  "structname": "Moq" + cid,
                  "template-data": {"skip-ensure": skip, "stub-impl": stub, "with-resets": resets}}
                 for k, skip, stub, resets in OPT_PKGS if resets == want]}
         pk[MOD + "/" + pkg] = {"config": {"template-data": {"with-resets": True}} if want else {}, "interfaces": ifaces}
+    # in-package mocks (interfaces with unexported method names): one source package per option set, the mock file
+    # and a generated shim (method expressions: the only way to reach unexported methods from the driver) next to it
+    inp = {cid: c for cid, c in live.items() if in_package(c)}
+    shims = {}
+    if inp:
+        isrc = "".join(iface_src(cid, c) for cid, c in inp.items())
+        for k, skip, stub, resets in OPT_PKGS:
+            d = w / "in" / ("i%d" % k)
+            d.mkdir(parents=True)
+            (d / "src.go").write_text("package i%d\n\ntype V struct{ N int }\n\n%s" % (k, isrc))
+            td = {"skip-ensure": skip, "stub-impl": stub}
+            if resets:
+                td["with-resets"] = True
+            pk["%s/in/i%d" % (MOD, k)] = {
+                "config": {"dir": str(d), "filename": "mocks_gen.go", "pkgname": "i%d" % k, "template-data": td},
+                "interfaces": {cid: {"config": {"structname": "Moq" + cid}} for cid in inp}}
+            sh = ["package i%d\n\n// generated by checks/c04.py: access to the (possibly unexported) methods of the in-package mocks\n"
+                  "var Shims = map[string]map[string]interface{}{\n" % k]
+            for cid, c in inp.items():
+                ma, mb = MNAMES[c["mnames"]]
+                ent = ['"new": func() interface{} { return &Moq%s{} }' % cid,
+                       '"A": (*Moq%s).%s' % (cid, ma), '"B": (*Moq%s).%s' % (cid, mb),
+                       '"ACalls": (*Moq%s).%sCalls' % (cid, ma), '"BCalls": (*Moq%s).%sCalls' % (cid, mb)]
+                if resets:
+                    ent += ['"ResetACalls": (*Moq%s).Reset%sCalls' % (cid, ma), '"ResetBCalls": (*Moq%s).Reset%sCalls' % (cid, mb),
+                            '"ResetCalls": (*Moq%s).ResetCalls' % cid]
+                sh.append('\t"%s": {%s},\n' % (cid, ", ".join(ent)))
+            sh.append("}\n")
+            shims[d / "shim.go"] = "".join(sh)     # written after the run: mockery type-checks the source package
     conf = {"template": "matryer", "packages": pk}
     (w / ".mockery.yml").write_text(json.dumps(conf))
     res = ctx.run_mockery(w, timeout=600, trace=False)
@@ -167,16 +226,31 @@ def generate(ctx, w, live):
         if res.panicked:
             raise MachineryError("mockery panicked while generating the matryer mocks (C09's business):\n" + (res.err + res.out)[-1500:])
         raise MachineryError("mockery failed to generate the matryer mocks (exit %s):\n%s" % (res.code, (res.err + res.out)[-2000:]))
+    for pth, txt in shims.items():
+        pth.write_text(txt)
     for k, *_ in OPT_PKGS:
         if not (w / "out" / ("o%d" % k) / "mocks.go").exists():
             raise MachineryError("mockery exit 0 but out/o%d/mocks.go was not written" % k)
+        if inp and not (w / "in" / ("i%d" % k) / "mocks_gen.go").exists():
+            raise MachineryError("mockery exit 0 but in/i%d/mocks_gen.go was not written" % k)
 
 
 def write_registry(w, live):
+    inp = any(in_package(c) for c in live.values())
     imp = "".join('\to%d "%s/out/o%d"\n' % (k, MOD, k) for k, *_ in OPT_PKGS)
-    ent = "".join('\t"o%d/%s": func() interface{} { return &o%d.Moq%s{} },\n' % (k, cid, k, cid)
-                  for cid in live for k, *_ in OPT_PKGS)
-    (w / "drv" / "registry.go").write_text("package main\n\nimport (\n" + imp + ")\n\nvar registry = map[string]func() interface{}{\n" + ent + "}\n")
+    if inp:
+        imp += "".join('\ti%d "%s/in/i%d"\n' % (k, MOD, k) for k, *_ in OPT_PKGS)
+    ent = []
+    for cid, c in live.items():
+        ma, mb = MNAMES[c.get("mnames", "AB")]
+        for k, *_ in OPT_PKGS:
+            if in_package(c):
+                ent.append('\t"o%d/%s": {mk: i%d.Shims["%s"]["new"].(func() interface{}), names: [2]string{"%s", "%s"}, shim: i%d.Shims["%s"]},\n'
+                           % (k, cid, k, cid, ma, mb, k, cid))
+            else:
+                ent.append('\t"o%d/%s": {mk: func() interface{} { return &o%d.Moq%s{} }, names: [2]string{"%s", "%s"}},\n'
+                           % (k, cid, k, cid, ma, mb))
+    (w / "drv" / "registry.go").write_text("package main\n\nimport (\n" + imp + ")\n\nvar registry = map[string]entry{\n" + "".join(ent) + "}\n")
 
 
 # ------------------------------------------------------------------ TLC export (streamed: cases are not all parsed here)
